@@ -23,6 +23,12 @@
 *)
 EXTENDS Naturals, Integers, Sequences, FiniteSets, TLC
 
+\* "answered immediately": not queued behind other work.  An implementation may take a moment of its own
+\* (the pinned one takes none in virtual time); anything that waits for an ack or a caller timeout is far beyond.
+AliveGraceMs == 100
+\* tolerance around deadlines, as in DoipContract
+SlackMs == 150
+
 M0 == [sent |-> <<>>, ndel |-> 0, alive |-> <<>>, op |-> "none", t0 |-> 0, tmo |-> -1, d |-> <<>>,
        decisive |-> "none", wrote |-> FALSE, unspec |-> FALSE, unspecNext |-> FALSE,
        closedAt |-> -1, errAt |-> -1, errN |-> 0, status |-> FALSE, fail |-> "ok"]
@@ -34,14 +40,17 @@ First5(d) == SubSeq(d, 1, Min(5, Len(d)))
 DataForUs(c, f) == f.src = c.ecu /\ f.dst = c.tester
 AckForUs(c, f)  == f.src = c.tester /\ f.dst = c.ecu
 
+\* the earlier of the acknowledgement deadline and the caller's own deadline
+WriteDeadline(c, m) == IF m.tmo # -1 /\ m.tmo < c.ackTime THEN m.t0 + m.tmo ELSE m.t0 + c.ackTime
+
 OnFeed(c, m, t, f) ==
   CASE f.k = "Data" /\ DataForUs(c, f) ->
          \* a message behind an error word can never be reached: it does not count as deliverable
          IF m.errAt # -1 THEN m ELSE [m EXCEPT !.sent = Append(@, [d |-> f.d, t |-> t])]
-    [] f.k = "Alive" -> [m EXCEPT !.alive = Append(@, t)]
+    [] f.k = "Alive" -> [m EXCEPT !.alive = Append(@, t + AliveGraceMs)]
     [] f.k = "Ack" /\ AckForUs(c, f) ->
          IF m.op = "write" /\ m.decisive = "none" /\ f.d = First5(m.d) /\ m.errAt = -1
-         THEN [m EXCEPT !.decisive = "pos"]
+         THEN [m EXCEPT !.decisive = IF t > WriteDeadline(c, m) - SlackMs THEN "late" ELSE "pos"]
          ELSE [m EXCEPT !.unspecNext = TRUE]
     [] f.k = "Err" -> IF m.errAt = -1 THEN [m EXCEPT !.errAt = t, !.errN = Len(m.sent)] ELSE m
     [] f.k = "Status" -> [m EXCEPT !.status = TRUE]
@@ -74,9 +83,9 @@ EndRead(c, m, e) ==
   ELSE IF m.status THEN m
   ELSE
   CASE e.res = "Timeout" ->
-         IF m.closedAt = -1 /\ m.ndel < Deliverable(m) /\ m.sent[m.ndel + 1].t < e.t
+         IF m.closedAt = -1 /\ m.ndel < Deliverable(m) /\ m.sent[m.ndel + 1].t < e.t - SlackMs
          THEN Fail(m, "H5/message-for-us-available-but-read-timed-out")
-         ELSE IF m.closedAt = -1 /\ m.errAt # -1 /\ m.errAt < e.t /\ m.ndel >= Deliverable(m)
+         ELSE IF m.closedAt = -1 /\ m.errAt # -1 /\ m.errAt < e.t - SlackMs /\ m.ndel >= Deliverable(m)
          THEN Fail(m, "H4/error-control-word-did-not-surface")
          ELSE IF m.tmo = -1 \/ e.t < m.t0 + m.tmo THEN Fail(m, "read/timeout-before-the-caller-deadline")
          ELSE m
@@ -92,14 +101,15 @@ EndWrite(c, m, e) ==
   ELSE
   CASE e.res = "ok" ->
          IF ~m.wrote THEN Fail(m, "H2/write-completed-without-transmission")
-         ELSE IF m.decisive = "pos" THEN m
+         ELSE IF m.decisive \in {"pos", "late"} THEN m
          ELSE Fail(m, "H2/write-completed-without-acknowledgement")
     [] e.res = "ConnErr" ->
          IF m.decisive = "pos" THEN Fail(m, "H2/write-failed-although-acknowledged")
+         ELSE IF m.decisive = "late" THEN m
          ELSE IF m.errAt # -1 THEN
               (IF m.closedAt # -1 THEN m ELSE Fail(m, "H4/connection-not-closed-after-error-control-word"))
-         ELSE IF e.t > m.t0 + c.ackTime THEN Fail(m, "H2/connection-error-later-than-the-ack-timeout")
-         ELSE IF e.t < m.t0 + c.ackTime /\ m.closedAt = -1 THEN Fail(m, "H2/write-failed-before-the-ack-timeout")
+         ELSE IF e.t > m.t0 + c.ackTime + SlackMs THEN Fail(m, "H2/connection-error-later-than-the-ack-timeout")
+         ELSE IF e.t < m.t0 + c.ackTime - SlackMs /\ m.closedAt = -1 THEN Fail(m, "H2/write-failed-before-the-ack-timeout")
          ELSE m
     [] e.res = "Timeout" ->
          IF m.decisive = "pos" THEN Fail(m, "H2/write-timed-out-although-acknowledged")
